@@ -1,12 +1,13 @@
 #!/bin/sh
-# tools/try_mutant.sh <patch.diff> <tier> <id>...   applies the patch to /repo, runs the checks, always reverts
+# tools/try_mutant.sh <patch.diff> <tier> <id>...   applies the patch in a scratch worktree of /repo HEAD (so that
+# builders / checks running against /repo are not disturbed), runs the checks with VERIF_REPO_SRC, removes the worktree.
 P="$1"; TIER="$2"; shift 2
-cd /repo || exit 2
-if ! git diff --quiet; then echo "/repo has uncommitted changes"; exit 2; fi
-git apply "$P" || { echo "patch does not apply"; exit 2; }
-trap 'git -C /repo checkout -- . ' EXIT INT TERM
+W=/tmp/trym_$$
+git -C /repo worktree add -q "$W" HEAD || exit 2
+trap 'git -C /repo worktree remove --force '"$W"' >/dev/null 2>&1' EXIT INT TERM
+git -C "$W" apply "$P" || { echo "patch does not apply"; exit 2; }
 for id in "$@"; do
-  cd /verif && ./check "$id" --tier "$TIER" > /tmp/try_mutant.$$ 2>&1; rc=$?
+  cd /verif && VERIF_REPO_SRC="$W/src" ./check "$id" --tier "$TIER" > /tmp/try_mutant.$$ 2>&1; rc=$?
   tail -6 /tmp/try_mutant.$$; rm -f /tmp/try_mutant.$$
   echo "EXIT[$id]=$rc"
 done
